@@ -73,7 +73,10 @@ func (c *TextCase) Exec(t *eng.T) {
 		t.Fail("text:"+firstDiffClass(src, out.S), "delimiter-free source %q renders to %q", src, out.S)
 		return
 	}
-	// a second render of the same compiled text must be identical as well (cheap extra)
+	// the same source handed over as a byte slice the caller overwrites after the compilation
+	if o2 := px.RenderBytesScribbled(set, src, nil); o2.Failed() || o2.S != src {
+		t.Fail("text-frombytes:"+firstDiffClass(src, o2.S), "delimiter-free source %q compiled with FromBytes renders to %s after the caller reused its buffer", src, o2)
+	}
 }
 
 func isPlainASCII(s string) bool {
@@ -121,6 +124,8 @@ func frags() []Frag {
 		{"verbatim-tag", "{% verbatim %}{% if %}{% endverbatim %}", "{% if %}"},
 		{"verbatim-comment", "{% verbatim %}{# c #}{% endverbatim %}", "{# c #}"},
 		{"verbatim-lookalike", "{% verbatim %}endverbatim {% endverbati %}{% endverbatim %}", "endverbatim {% endverbati %}"},
+		{"verbatim-in-verbatim", "{% verbatim %}a{% verbatim %}b{% endverbatim %}", "a{% verbatim %}b"},
+		{"verbatim-commenttag", "{% verbatim %}{% comment %}x{% endcomment %}{% endverbatim %}", "{% comment %}x{% endcomment %}"},
 		{"verbatim-nl", "{% verbatim %}\n{{\n{% endverbatim %}", "\n{{\n"},
 		{"comment", "{# #}", ""},
 		{"comment", "{##}", ""},
@@ -204,6 +209,9 @@ func (c *SeqCase) Exec(t *eng.T) {
 	}
 	if out.S != want.String() {
 		t.Fail("concat:"+kindKey, "fragments %s: source %q renders to %q, want the concatenation of the parts %q", c.ID(), src.String(), out.S, want.String())
+	}
+	if o2 := px.RenderBytesScribbled(pongo2.NewSet("c06-bytes", pongo2.MustNewLocalFileSystemLoader("")), src.String(), ctx); !o2.Failed() && o2.S != want.String() {
+		t.Fail("concat-frombytes:"+kindKey, "fragments %s: source %q compiled with FromBytes renders to %q after the caller reused its buffer, want %q", c.ID(), src.String(), o2.S, want.String())
 	}
 	if probeCalls != 0 {
 		t.Fail("comment-evaluated:"+kindKey, "fragments %s: a function inside a comment was called %d times", c.ID(), probeCalls)
